@@ -318,7 +318,7 @@ func c18Scenario(ctx context.Context, t *testing.T, w *c18World, base string, p,
 		select {
 		case <-parked:
 			return true
-		case <-time.After(20 * time.Second):
+		case <-time.After(120 * time.Second):
 			out = c18Outcome{key: "harness", what: "gate not reached: " + what}
 			return false
 		}
@@ -327,7 +327,7 @@ func c18Scenario(ctx context.Context, t *testing.T, w *c18World, base string, p,
 		close(g.release)
 		select {
 		case <-engDone:
-		case <-time.After(20 * time.Second):
+		case <-time.After(120 * time.Second):
 		}
 		_ = v.snowVM.Shutdown(ctx) // drains the accept queue
 		g.mu.Lock()
@@ -355,7 +355,7 @@ func c18Scenario(ctx context.Context, t *testing.T, w *c18World, base string, p,
 				finish()
 				return out
 			}
-		case <-time.After(20 * time.Second):
+		case <-time.After(120 * time.Second):
 			out = c18Outcome{key: "harness", what: "engine thread did not finish"}
 			finish()
 			return out
